@@ -715,34 +715,65 @@ func ruleSetClearedPerRecord(r *Run) {
 		return false
 	}
 	grp := funcGroup(sf)
-	var clears []ssa.Instruction
-	for _, gf := range grp {
-		allInstrs(gf, func(in ssa.Instruction) {
-			if isClear(gf, in, sf.Params[0], grp) {
-				clears = append(clears, in)
+	// path-based: before the first label is added on a path through SetFromRecord (helpers that take
+	// part in the emptying are followed) the set was emptied - cleared, or replaced by a fresh map
+	empties := func(f *ssa.Function) bool {
+		found := false
+		allInstrs(f, func(in ssa.Instruction) {
+			if isClear(f, in, f.Params[0], []*ssa.Function{f}) {
+				found = true
 			}
 		})
+		return found
 	}
-	var adds []ssa.Instruction
-	for _, c := range callsIn(sf) {
-		if callIs(c, eng, "(*LabelSet).Set") || callIs(c, eng, "(*LabelSet).SetAttrs") {
-			adds = append(adds, c)
+	follow := map[*ssa.Function]bool{}
+	for _, gf := range grp {
+		if gf != sf && gf.Parent() == nil && len(gf.Params) > 0 && empties(gf) {
+			follow[gf] = true
 		}
 	}
-	inSF := len(clears) > 0 && len(adds) > 0
-	for _, a := range adds {
-		ok := false
-		for _, c := range clears {
-			if runsBefore(c, a, sf, grp) {
-				ok = true
+	w := &feWalker{Fn: sf, MaxPath: 20000, Inline: func(c *ssa.Function, d int) bool { return follow[c] && d <= 2 }}
+	ends := w.Run()
+	inSF := !w.Aborted && len(ends) > 0
+	nAdds := 0
+	for _, e := range ends {
+		firstAdd := 1 << 30
+		for _, c := range e.State.calls {
+			if (callIs(c.Call, eng, "(*LabelSet).Set") || callIs(c.Call, eng, "(*LabelSet).SetAttrs")) && c.Call.Parent() == sf && c.Seq < firstAdd {
+				firstAdd = c.Seq
 			}
 		}
-		if !ok {
+		if firstAdd == 1<<30 {
+			// a helper of SetFromRecord may add the labels
+			for _, c := range e.State.calls {
+				if h := staticCallee(c.Call); h != nil && h.Pkg == sf.Pkg && !follow[h] && c.Call.Parent() == sf && c.Seq < firstAdd {
+					firstAdd = c.Seq
+				}
+			}
+		}
+		if firstAdd == 1<<30 {
+			continue
+		}
+		nAdds++
+		emptied := false
+		for _, c := range e.State.calls {
+			if c.Seq < firstAdd && isClear(c.Call.Parent(), c.Call, c.Call.Parent().Params[0], []*ssa.Function{c.Call.Parent()}) {
+				emptied = true
+			}
+		}
+		for _, st := range e.State.stores {
+			if f, _, ok := fieldNameOf(st.Store.Addr); ok && f == "labels" && st.Seq < firstAdd {
+				if _, fresh := st.Val.V.(*ssa.MakeMap); fresh {
+					emptied = true
+				}
+			}
+		}
+		if !emptied {
 			inSF = false
 		}
 	}
-	if inSF {
-		o.OK("the set is cleared before the first of %d Set/SetAttrs call(s)", len(adds)).At(r.pos(sf.Pos()))
+	if inSF && nAdds > 0 {
+		o.OK("on every path the set is emptied (cleared or replaced) before the first label is added").At(r.pos(sf.Pos()))
 		return
 	}
 	// otherwise the iterator must clear the set for every record, inside its loop
